@@ -25,7 +25,10 @@ class FlatMapFuture(MapFuture):
             )
 
         self.__flattened = True
+        # From here on we only mirror the returned future: neither function
+        # applies to its outcome.
         self._map_fn = lambda x: x
+        self._error_fn = None
         self._set_delegate(result)
 
 
